@@ -3,6 +3,7 @@
 #include <string_view>
 #include <unordered_map>
 #include <functional>
+#include <vector>
 
 
 
@@ -40,10 +41,19 @@ namespace sqf
                 static std::unordered_map<unsigned short, std::string> map = std::unordered_map<unsigned short, std::string>();
                 return map;
             }
+            // Hash of the type name per type value. Type values are handed out by
+            // first use and thus depend on what ran before in the process, the names do not.
+            static std::vector<std::size_t>& namehash_nc()
+            {
+                static std::vector<std::size_t> vec = std::vector<std::size_t>();
+                return vec;
+            }
         public:
             template<typename T>
             class extend;
             class conversion;
+
+            std::size_t name_hash() const { auto& vec = namehash_nc(); return m_value < vec.size() ? vec[m_value] : m_value; }
 
             operator unsigned short() const { return m_value; }
 
@@ -93,6 +103,9 @@ namespace sqf
                     m_value = s_local_type_value;
                     typemap_nc()[T::name()] = *this;
                     namemap_nc()[*this] = T::name();
+                    auto& namehash = namehash_nc();
+                    if (namehash.size() <= m_value) { namehash.resize((std::size_t)m_value + 1); }
+                    namehash[m_value] = std::hash<std::string>{}(T::name());
                 }
                 else
                 {
